@@ -195,10 +195,10 @@ func (st *StateTransition) preCheck() error {
 		// Make sure this transaction's nonce is correct.
 		stNonce := st.state.GetNonce(st.msg.From())
 		msgNonce := st.msg.Nonce()
-		// if stNonce < msgNonce {
-		// 	return fmt.Errorf("%w: address %v, tx: %d state: %d", ethcore.ErrNonceTooHigh,
-		// 		st.msg.From().Hex(), msgNonce, stNonce)
-		// }
+		if stNonce < msgNonce {
+			return fmt.Errorf("%w: address %v, tx: %d state: %d", ethcore.ErrNonceTooHigh,
+				st.msg.From().Hex(), msgNonce, stNonce)
+		}
 		if stNonce > msgNonce {
 			return fmt.Errorf("%w: address %v, tx: %d state: %d", ethcore.ErrNonceTooLow,
 				st.msg.From().Hex(), msgNonce, stNonce)
